@@ -542,3 +542,5 @@ def run(ctx):
     from . import C14
     C14.r4_local(ctx, 'C12.R8', 'C12.R8b')  # the reader's frame-size limit follows the acknowledged local SETTINGS, parameter by parameter
     boundaries.check_calls(ctx, 'C12.RC', 'C12')
+    from .. import errdisc
+    errdisc.check(ctx, 'C12.RD', 'C12', 9)
